@@ -377,10 +377,21 @@ def r3_loop(ctx, F):
         okb = okb and has_ok and nonzero_guard(gg)
     ctx.check(rule, "continue-only-on-nonzero", okb, "do_readdir continues the walk after the consumer returned Ok(0) or an error", loc=b.loc())
     # error arms: Err surfaces only when nothing was consumed
-    rt = R(v.ret(), b, v)
-    ctx.check(rule, "error-only-if-first", "Eq(impl [T]::len(loop(rem)), impl [T]::len(" in rt or "Eq(impl [T]::len(" in rt and "orig" in rt or _err_guard(b, v, h),
-              "do_readdir: an error from the consumer must surface only when no record was delivered before it", loc=b.loc())
+    err_first_only(ctx, F, rule)
     ctx.floor(rule, 9)
+
+
+def err_first_only(ctx, F, rule):
+    """PassthroughFs::do_readdir reports the consumer's error only when no record was delivered before it: otherwise the client gets an
+    error although entries (and, for readdirplus, their lookup references) were already handed out."""
+    b = F.method(PFS, "do_readdir")
+    v = vf.VF(b, inline_depth=0, opaque_loops=True)
+    cm = [c for c in live_calls(b) if c.name == "call_mut"]
+    hs = [h for h in v.loop_headers() if cm and b.dominates(h, cm[0].bb)]
+    rt = R(v.ret(), b, v)
+    ok = len(hs) == 1 and ("Eq(impl [T]::len(loop(rem)), impl [T]::len(" in rt or "Eq(impl [T]::len(" in rt and "orig" in rt or _err_guard(b, v, hs[0]))
+    ctx.check(rule, "error-only-if-first", ok,
+              "do_readdir: an error from the consumer must surface only when no record was delivered before it", loc=b.loc())
 
 
 def nonzero_guard(gg):
